@@ -152,7 +152,7 @@ def do_source(rec, hub, U, all_letters, la, regimes, rng, tier):
 def plan(tier):
     if tier == "quick":
         return "abc", gen.LENGTH_PATTERNS[3][:3]
-    return "abcd", gen.LENGTH_PATTERNS[4][:3]
+    return "abcd", gen.LENGTH_PATTERNS[4]
 
 
 def trace_equivalence(rec, hub, seed):
